@@ -742,20 +742,20 @@ def probes(ctx, ks):
     """constructor paths that the model does not cover: a list containing a multi-valued or a foreign object must be rejected"""
     for k in ks:
         for pos in (0, 1):
-            # a multi-valued object inside the list
-            arg = [k.mk(1), k.mk(2)]
-            arg[pos] = k.build([7, 8])
-            ctx.case((k.name, 'probe-multi', pos))
-            try:
-                r = k.cls(arg)
-                st = k.state(r) if type(r) is k.cls else ['not-same-class']
-                exp = [2, 1, 2]
-                exp[1 + pos] = -3
-                key = 'oracle:ctor-list:multi-valued-element-stored-as-nested-list' if st == exp else f'oracle:ctor-list:multi-valued-element:{k.name}:unexpected-result'
-                ctx.fail(key, f"{k.name}([.. a 2-valued {k.name} at position {pos} ..]) does not raise; state {st}",
-                         {'class': k.name, 'position': pos, 'state': st})
-            except Exception:  # noqa: raising is what the property asks for
-                ctx.count('probe:multi-valued-element-rejected')
+            # a multi-valued or an empty object inside the list: every element must hold exactly one value (repaired by 2eab8b7;
+            # the key names the outcome, no earlier entry can match it)
+            for what, tags in (('multi-valued', [7, 8]), ('empty', [])):
+                arg = [k.mk(1), k.mk(2)]
+                arg[pos] = k.build(tags)
+                ctx.case((k.name, 'probe-' + what, pos))
+                try:
+                    r = k.cls(arg)
+                    st = k.state(r) if type(r) is k.cls else ['not-same-class']
+                    ctx.fail(f'oracle:ctor-list:{what}-element-not-rejected:{k.name}',
+                             f"{k.name}([.. a {what} {k.name} at position {pos} ..]) does not raise; resulting state {st}",
+                             {'class': k.name, 'position': pos, 'element_tags': tags, 'state': st})
+                except Exception:  # noqa: raising is what the property asks for
+                    ctx.count(f'probe:{what}-element-rejected')
             for which, mkbad in (('related', k.related), ('unrelated', k.unrelated), ('int', lambda: 3)):
                 arg = [k.mk(1), k.mk(2)]
                 arg[pos] = mkbad()
@@ -766,7 +766,7 @@ def probes(ctx, ks):
                     if len(st) == 3 and st[0] == 2 and all(isinstance(t, int) and t >= 0 for t in st[1:]):
                         ctx.count('probe:foreign-element-converted')     # a documented conversion (e.g. UnitQuaternion from SO3): 2 valid values
                         continue
-                    ctx.fail(f"oracle:ctor-list:foreign-{'first' if pos == 0 else 'later'}-element:{k.name}:neither-raises-nor-two-values",
+                    ctx.fail(f"oracle:ctor-list:foreign-element-at-{pos}-not-rejected:{k.name}",
                              f"{k.name}([..]) with a {which} operand ({type(arg[pos]).__name__}) at position {pos} neither raises nor yields 2 values; result state {st}",
                              {'class': k.name, 'position': pos, 'operand': type(arg[pos]).__name__, 'state': st})
                 except Exception:  # noqa
